@@ -29,6 +29,7 @@ def run(ctx):
     ctx.each(optalg.rescale_algebra, ctx, repo, "R14g")
     ctx.each(optalg.required_total, ctx, repo, "R14h")
     ctx.each(optalg.evaluation_pipeline, ctx, repo, "R14i")
+    ctx.each(r14j, ctx, repo)
 
 
 def _derives_from(fi, name, param, depth=0):
@@ -318,3 +319,36 @@ def r14f(ctx, repo):
             ok = not any(cfg.path_exists(head, cfg.ids(st), avoid_ids=[i for fs in fresh for i in cfg.ids(fs)]) for st in stores)
         ctx.check(ok, "R14f", fi, stores[0], "`%s[%s]` is a fresh container created in the loop over `%s` before it is filled" % (tab, t, t), "`%s` fills `%s[%s]` but no fresh container is assigned to `%s[%s]` earlier in the same iteration over `%s`: the entries of different years end up in one shared object (or the previous year's), so a year is checked against bounds that are not its own" % (norm(stores[0])[:60], tab, t, tab, t, t), stmt_text="per-year-container:%s" % tab)
     ctx.require(n >= 1, "R14f: no per-year table found in get_hard_constraint")
+
+
+ORDER_PRESERVING = {"sc.promotetoarray", "np.array", "np.asarray", "list", "tuple", "sc.promotetolist", "np.atleast_1d", "sc.dcp"}
+
+
+def r14j(ctx, repo):
+    ctx.rule("R14j", "bounds stay with their year: SpendingAdjustment.__init__ keeps the years in the order given (an order-preserving conversion of the argument, no sort / unique / reverse), because lower, upper and initial are matched to the years by position, and builds one Adjustable per zip(lower, upper, initial) entry")
+    fi = repo.func("optimization", "SpendingAdjustment.__init__")
+    me = K.self_name(fi)
+    st = [s for s in own_nodes(fi.node) if isinstance(s, ast.Assign) and ast.unparse(s.targets[0]) == "%s.t" % me]
+    ctx.require(len(st) >= 1, "R14j: assignment of self.t not found in SpendingAdjustment.__init__")
+    for s in st:
+        v = s.value
+        ok = True
+        while isinstance(v, ast.Call):
+            if ast.unparse(v.func) not in ORDER_PRESERVING or not v.args:
+                ok = False
+                break
+            v = v.args[0]
+        ok = ok and isinstance(v, ast.Name) and v.id == "t"
+        ctx.check(ok, "R14j", fi, s, "years kept in the caller's order", "`%s` is not an order-preserving conversion of the `t` argument: the per-year lower / upper / initial values are matched to the years by position, so after reordering each year is optimised within another year's bounds (the total is still met, nothing is raised)" % norm(s)[:90])
+    adj = [s for s in own_nodes(fi.node) if isinstance(s, ast.Assign) and ast.unparse(s.targets[0]) == "%s.adjustables" % me]
+    ok = len(adj) == 1 and isinstance(adj[0].value, ast.ListComp) and ast.unparse(adj[0].value.generators[0].iter) == "zip(lower, upper, initial)"
+    if ok:
+        names = [ast.unparse(e) for e in adj[0].value.generators[0].target.elts]
+        c = adj[0].value.elt
+        ok = isinstance(c, ast.Call) and ast.unparse(c.func) == "Adjustable" and ast.unparse(astq.kwarg(c, "lower_bound")) == names[0] and ast.unparse(astq.kwarg(c, "upper_bound")) == names[1] and ast.unparse(astq.kwarg(c, "initial_value")) == names[2]
+    ctx.check(ok, "R14j", fi, adj[0] if adj else fi.node, "one Adjustable per (lower, upper, initial) triple, in order", "the adjustables are not built from zip(lower, upper, initial) with each value in its own role", stmt_text="adjustables")
+    # every expansion of a scalar keeps the count of years
+    for nm in ("lower", "upper", "initial"):
+        ex = [s for s in own_nodes(fi.node) if isinstance(s, ast.Assign) and astq.is_name(s.targets[0], nm) and isinstance(s.value, ast.BinOp) and isinstance(s.value.op, ast.Mult)]
+        for s in ex:
+            ctx.check(ast.unparse(s.value) in ("%s * len(%s.t)" % (nm, me), "len(%s.t) * %s" % (me, nm)), "R14j", fi, s, "a single %s bound is repeated once per year" % nm, "`%s` does not repeat the single value once per year" % norm(s))
